@@ -15,7 +15,22 @@ PID = "C15"
 EXPONENTS = [1, 2, 3, 7, 1.0, 2.0, 5.0, 0, -1, -2, 0.0, -3.0, 0.5, 2.5, -0.5, 1e-9, 2 ** 40, float(2 ** 20),
              0.1 * 3 * 10, 2.000000001, 1.9999999995, 1000000.0005, 7 - 1e-12, 1.0000000000000002, 0.9999999999999999,
              float("nan"), float("inf"), True, 2 ** 53 + 1, 10 ** 17 + 1, 2 ** 64 - 1, 1e20, float(2 ** 53)]
-FOREIGN = [3, 2.5, "x", None, [1], (1,), {"a": 1}, object(), 0, 1, True, 1j]
+class Greedy:
+    """a foreign operand whose reflected operators accept anything: if the expression's own operator
+    answered NotImplemented instead of raising, Python would hand the operation over to these"""
+    def _take(self, other):
+        return ("swallowed", other)
+    __radd__ = __rsub__ = __rmul__ = __rtruediv__ = __rpow__ = __rfloordiv__ = __rmod__ = _take
+
+    def __repr__(self):
+        return "Greedy()"
+
+
+from fractions import Fraction as _Fraction      # noqa: E402
+from decimal import Decimal as _Decimal          # noqa: E402
+
+FOREIGN = [3, 2.5, "x", None, [1], (1,), {"a": 1}, object(), 0, 1, True, 1j,
+           _Fraction(5, 1), _Fraction(1, 2), _Decimal(2), Greedy()]
 
 
 def pyval(v) -> str:
@@ -41,6 +56,8 @@ def check_cases(cases: list[dict], rep: Report, known: dict) -> None:
     bt = Batch()
     work = []
     for c in cases:
+        if rep.stop():
+            break
         a, b = wire.build_raw(c["a"]), wire.build_raw(c["b"])
         rep.case((c["a"], c["b"]), wire.size(a) + wire.size(b) >= 3)
         pairs = [
@@ -103,7 +120,7 @@ def check_cases(cases: list[dict], rep: Report, known: dict) -> None:
                 rep.corr_break(f"operator result differs from the model: {got!r} vs {bt[i][:200]}"[:500], info)
         elif got[0] == "ok":
             rep.corr_break(f"model rejects ({rest}) what the implementation accepts", info)
-    rep.sample({"a": cases[0]["a"][:100], "b": cases[0]["b"][:100], "checked": "-a, a+b, a-b, a*b, a/b, a**b, a**k for 21 exponents, 12 foreign operands on both sides"})
+    rep.sample({"a": cases[0]["a"][:100], "b": cases[0]["b"][:100], "checked": "-a, a+b, a-b, a*b, a/b, a**b, a**k for 21 exponents, 16 foreign operands (incl. Fraction, Decimal and an object with catch-all reflected operators) on both sides"})
 
 
 def run(rep: Report, rng, tier: str, known: dict, search: bool = False) -> None:
@@ -113,7 +130,7 @@ def run(rep: Report, rng, tier: str, known: dict, search: bool = False) -> None:
 def evidence(rep: Report) -> None:
     write_evidence(
         rep,
-        rule="cases = pairs of expressions (a, b); per pair the six operators against the constructors (==, identical repr, identical type) and the model, a ** k for 21 exponents (ints and integral floats >= 1 up to 2^40, zero, negative, non-integral, nan, inf, bool), and 12 foreign operands on either side of each binary operator; non-trivial = at least 3 nodes in a and b together; distinct by (a, b)",
+        rule="cases = pairs of expressions (a, b); per pair the six operators against the constructors (==, identical repr, identical type) and the model, a ** k for 21 exponents (ints and integral floats >= 1 up to 2^40, zero, negative, non-integral, nan, inf, bool), and 16 foreign operands (numbers, containers, None, Fraction, Decimal, an object with catch-all reflected operators) on either side of each binary operator; non-trivial = at least 3 nodes in a and b together; distinct by (a, b)",
         trusted=common.TRUSTED,
         assumptions=[],
     )
